@@ -12,15 +12,6 @@ theorem hexAlphabet_upper : ∀ n, n < 16 → rd hexAlphabet n = .ok (Spec.upper
 theorem hexHi_eq (b : Nat) : hexHi b = b / 16 := Nat.shiftRight_eq_div_pow b 4
 theorem hexLo_eq (b : Nat) : hexLo b = b % 16 := Nat.and_two_pow_sub_one_eq_mod b 4
 
-theorem fromHex_upper (bs : List Nat) (h : ∀ b ∈ bs, b < 256) : fromHex bs = .ok (Spec.upperHex bs) := by
-  induction bs with
-  | nil => rfl
-  | cons b rest ih =>
-    have hb : b < 256 := h b (List.mem_cons_self ..)
-    have hr := ih (fun x hx => h x (List.mem_cons_of_mem _ hx))
-    rw [fromHex, hexHi_eq, hexLo_eq, hexAlphabet_upper _ (by omega), hexAlphabet_upper _ (by omega), hr]
-    rfl
-
 /-! ### base64 tables -/
 set_option maxRecDepth 4000 in
 theorem b64_table_len : base64de.length = 123 := by decide
@@ -204,6 +195,42 @@ theorem b64_decode_gen (bs : List Nat) :
     · rw [show j + (rest.length + 1 + 1 + 1) = j + 3 + rest.length by omega, h2, take3of3 _ _ _ _ _ (by omega)]
       simp
 
+
+theorem take2of2 (out : List Nat) (j a b : Nat) (h : j + 1 < out.length) :
+    ((out.set j a).set (j + 1) b).take (j + 2) = out.take j ++ [a, b] := by
+  rw [show j + 2 = (j + 1) + 1 from rfl, take_succ_set (by rw [List.length_set]; omega), take_succ_set (by omega)]
+  simp
+
+/-! ### the loop of fromHex -/
+theorem fromHexLoop_upper (data : List Nat) : (∀ b ∈ data, b < 256) → ∀ (d : Nat) (out : List Nat),
+    d + data.length * 2 ≤ out.length →
+    ∃ out', fromHexLoop data d out = .ok out' ∧ out'.length = out.length ∧
+      out'.take (d + data.length * 2) = out.take d ++ Spec.upperHex data := by
+  induction data with
+  | nil =>
+    intro _ d out _
+    exact ⟨out, rfl, rfl, by simp [Spec.upperHex]⟩
+  | cons b rest ih =>
+    intro h d out hl
+    have hb : b < 256 := h b (List.mem_cons_self ..)
+    have hr : ∀ x ∈ rest, x < 256 := fun x hx => h x (List.mem_cons_of_mem _ hx)
+    simp only [List.length_cons] at hl
+    rw [fromHexLoop, hexHi_eq, hexLo_eq, hexAlphabet_upper _ (by omega), hexAlphabet_upper _ (by omega),
+      Res.bind_ok, wr_ok (by omega), Res.bind_ok, Res.bind_ok, wr_ok (by rw [List.length_set]; omega), Res.bind_ok]
+    obtain ⟨out', h1, h2, h3⟩ := ih hr (d + 2)
+      ((out.set d (Spec.upperHexDigit (b / 16))).set (d + 1) (Spec.upperHexDigit (b % 16)))
+      (by rw [List.length_set, List.length_set]; omega)
+    refine ⟨out', h1, by rw [h2, List.length_set, List.length_set], ?_⟩
+    rw [List.length_cons, show d + (rest.length + 1) * 2 = d + 2 + rest.length * 2 by omega, h3,
+      take2of2 _ _ _ _ (by omega)]
+    simp [Spec.upperHex]
+
+theorem fromHex_upper (bs : List Nat) (h : ∀ b ∈ bs, b < 256) : fromHex bs = .ok (Spec.upperHex bs) := by
+  unfold fromHex
+  obtain ⟨out', h1, h2, h3⟩ := fromHexLoop_upper bs h 0 (List.replicate (bs.length * 2) 0) (by simp)
+  rw [h1]
+  simp only [Nat.zero_add, List.take_zero, List.nil_append, List.length_replicate] at h2 h3
+  rw [← h3, List.take_of_length_le (by omega)]
 
 theorem fromBase64_rfc (bs : List Nat) (hb : ∀ b ∈ bs, b < 256) :
     fromBase64 (Spec.rfc4648Encode bs) = .ok bs := by
